@@ -251,19 +251,25 @@ def run(ctx):
         for acc in (True, False):
             if not thorough and not acc and typ != "RATIO":
                 continue      # quick: the accumulate-off variants are subsumed except for one representative
-            if thorough:
-                nalpha, maxobs = 3, 4
+            if thorough and acc and typ in ("SUM", "RATIO"):
+                nalpha, maxobs = 2, 4        # ~20k states, ~4e5 transitions each
             else:
                 nalpha, maxobs = 2, 3
             cfgs.append((typ, acc, nalpha, maxobs))
-    with ThreadPoolExecutor(8) as ex:
-        futs = [ex.submit(lambda c=c: tlc.run(MODULE, *model(*c)[:1], defs=model(*c)[1], coverage=True, timeout=3000)) for c in cfgs]
-        devf = ex.submit(model_devs, ctx)
-        runs = [f.result() for f in futs]
-        devf.result()
-    for c, r in zip(cfgs, runs):
-        explore(ctx, c[0], c[1], c[2], r)
-    ctx.require_actions(["AddNew", "AddEmpty", "UpdateLast", "MergeRes", "MergeAll", "AppendAll"])
+    model_devs(ctx)
+    # one configuration after the other in the thorough tier (the emitted graphs are large), all at once in the quick tier
+    group = 2 if thorough else 8
+    for i in range(0, len(cfgs), group):
+        part = cfgs[i:i + group]
+        with ThreadPoolExecutor(group) as ex:
+            runs = list(ex.map(lambda c: tlc.run(MODULE, *model(*c)[:1], defs=model(*c)[1], coverage=not thorough, timeout=3000, heap="3g"), part))
+        for c, r in zip(part, runs):
+            explore(ctx, c[0], c[1], c[2], r)
+            r.emitted = None
+            r.out = ""
+        del runs
+    if not thorough:
+        ctx.require_actions(["AddNew", "AddEmpty", "UpdateLast", "MergeRes", "MergeAll", "AppendAll"])
     ctx.exhaustive = True
     from . import c06_combine
     c06_combine.run(ctx)
